@@ -3,7 +3,7 @@
 # Confirms a seeded change independently in a scratch worktree: (a) the repo test-suite still passes with the
 # change, (b) the demonstration fails with it, (c) passes without it.  On success stores it under
 # /verif/seeded/<PROP>-<k>/ (patch.diff, demo.py, notes.md, confirm.log).  Scratch worktree is removed afterwards.
-PROP=$1; K=$2; OUT=$3
+PROP=$1; K=$2; OUT=$3; OUTK=${4:-$K}
 WT=/tmp/vq-confirm-$PROP-$K
 LOG=/tmp/vq-confirm-$PROP-$K.log
 : > $LOG
@@ -23,10 +23,10 @@ echo "demo without change: exit $DO" >>$LOG
 cd /; git -C /repo worktree remove --force $WT
 OKT=0; echo "$TESTS" | grep -q "176 passed" && ! echo "$TESTS" | grep -q "failed" && OKT=1
 if [ $OKT = 1 ] && [ $DW != 0 ] && [ $DO = 0 ]; then
-  D=/verif/seeded/$PROP-$K; mkdir -p $D
+  D=/verif/seeded/$PROP-$OUTK; mkdir -p $D
   cp $LOG.patch $D/patch.diff; cp $OUT/demo$K.py $D/demo.py; cp $OUT/notes$K.md $D/notes.md; cp $LOG $D/confirm.log
   tail -5 $LOG.demo_with >> $D/confirm.log
-  echo "RESULT $PROP-$K CONFIRMED ($TESTS; demo with=$DW without=$DO)" | tee -a $LOG
+  echo "RESULT $PROP-$OUTK CONFIRMED ($TESTS; demo with=$DW without=$DO)" | tee -a $LOG
 else
   echo "RESULT $PROP-$K NOT CONFIRMED ($TESTS; demo with=$DW without=$DO)" | tee -a $LOG
 fi
